@@ -126,6 +126,7 @@ PROPS = {
         "kind": "c04",
         "module": "Props.C04",
         "namespace": "Jl.C04",
+        "extra_theorem_files": [("Proofs.TimeShape", "Jl.TimeShape")],
         "rule": ("9 output formats x (18 raw types + none) x 9 x 19 input descriptors (sampled) x ~85 JSON values (null, booleans, numbers "
                  "of every spelling and magnitude incl. 1e400, 30 digits, timestamps around years 0, 1970, 9999, 10000, +-2^63; strings "
                  "incl. numeric / boolean / base64 / date / date-time look-alikes and near-misses; arrays; objects), at top level and inside a "
